@@ -27,7 +27,7 @@ def describe(tier):
                 "every assignment of the evaluator kinds {sync, async-immediate, async-yield-once, async-yield-twice} to 3 keys. For every "
                 "harness ALL completion orders of the pending awaitables at quiescent points are enumerated depth-first on a virtual event "
                 f"loop (H3-large / H6-large: <= {b['large_order_bound']} deviations from oldest-first), plus <= {b['early']} early/batched "
-                "completion per schedule. Oracle: the observed result of every schedule equals the zero-yield baseline of the same harness "
+                "completion per schedule for harnesses with <= 400 plain orders. Oracle: the observed result of every schedule equals the zero-yield baseline of the same harness "
                 "(exactly one distinct outcome); a missing package raises NotImplementedError in every order; concurrent evaluations equal "
                 "their solo results. Non-trivial = schedules that deviate from oldest-first completion.",
         "bounds": b,
@@ -407,8 +407,12 @@ def run_item(item):
     worker_init()
     r = Result()
     base = _baseline(item)
-    exp = vloop.explore(HARNESS[item["h"]](item["params"], False), _observe, order_bound=item["order_bound"],
-                        early_bound=item["early"])
+    exp = vloop.explore(HARNESS[item["h"]](item["params"], False), _observe, order_bound=item["order_bound"], early_bound=0)
+    if item["early"] and exp.schedules <= 400:
+        # one early / batched completion per schedule on top of all orders - only where the order space itself is small
+        exp = vloop.explore(HARNESS[item["h"]](item["params"], False), _observe, order_bound=item["order_bound"],
+                            early_bound=item["early"])
+        r.stat("harnesses_with_early_completion")
     r.evaluations = exp.schedules
     r.states = exp.decision_points
     r.transitions = exp.decision_points
